@@ -160,3 +160,27 @@ package types
 //@   call k5 := AcceptedQueueStoreKey(c)
 //@   call k6 := SpentEFUNDAddressStoreKey(z)
 //@   show k1[0] == 1 && k2[0] == 2 && k3[0] == 3 && k4[0] == 4 && k5[0] == 5 && k6[0] == 6
+
+// ---------------------------------------------------------------- parameters
+
+//@ func validateEntSigners(i) (err)
+//@   props C16 C03
+//@   ensures err == nil ==> is_string(i) && len(unbox_string(i)) > 0
+//@   ensures err == nil ==> forall j int :: {splitOn(unbox_string(i), ",")[j]} 0 <= j && j < len(splitOn(unbox_string(i), ",")) ==> validBech32(splitOn(unbox_string(i), ",")[j])
+//@   loop 0: invariant 0 - 1 <= rangeindex && rangeindex < len(entSigners) && entSigners == splitOn(unbox_string(i), ",") && is_string(i)
+//@   loop 0: invariant forall j int :: {entSigners[j]} 0 <= j && j <= rangeindex ==> validBech32(entSigners[j])
+
+//@ func Params.Validate(p) (err)
+//@   props C16 C03
+//@   let signers := splitOn(p.EntSigners, ",")
+//@   ensures @denom err == nil ==> validDenom(p.Denom)
+//@   ensures @positive err == nil ==> p.MinAccepts >= 1 && p.DecisionTimeLimit >= 1
+//@   ensures @signers_wellformed err == nil ==> forall j int :: {signers[j]} 0 <= j && j < len(signers) ==> validBech32(signers[j])
+//@   ensures @quorum_possible err == nil ==> len(signers) >= p.MinAccepts
+
+//@ func validateDenom(i)
+//@   inline
+//@ func validateMinAccepts(i)
+//@   inline
+//@ func validateDecisionLimit(i)
+//@   inline
